@@ -158,6 +158,20 @@ theorem C10_rising_gamma (b : Rat) (n : Nat) :
     push_cast
     ring
 
+/-- **scores do not depend on how the states or the parent configurations are numbered**: the K2 and BD column terms
+    are invariant under permuting the counts within a column (relabelling the child's states), and the K2 score under
+    permuting the columns (relabelling / reordering parent configurations) -/
+theorem C10_state_order_irrelevant (r : Nat) (alpha beta : Rat) (col col' : List Nat) (p : col.Perm col')
+    (cols cols' : List (List Nat)) (q : cols.Perm cols') :
+    k2Col r col = k2Col r col' ∧ bdCol alpha beta col = bdCol alpha beta col' ∧ k2Exp r cols = k2Exp r cols' := by
+  refine ⟨?_, ?_, ?_⟩
+  · unfold k2Col colTotal
+    rw [(p.map _).prod_eq, p.sum_eq]
+  · unfold bdCol colTotal
+    rw [(p.map _).prod_eq, p.sum_eq]
+  · unfold k2Exp
+    rw [(q.map _).prod_eq]
+
 /-! ### score equivalence across a covered edge (Proofs/ScoreEq.lean)
 
 X and Y have the same other parents (q joint configurations); `N j x y` are the counts.  Chickering (1995):
